@@ -390,7 +390,9 @@ bool Parser::parseCompoundStatement_AtFirst(StatementSyntax*& stmt,
                      return false,
                      "assert failure: `{'");
 
-    DepthControl _(DEPTH_OF_STMTS_);
+    DepthControl _(DEPTH_OF_STMTS_,
+                   MAX_DEPTH_OF_STMTS,
+                   "maximum depth of statements reached");
 
     auto block = makeNode<CompoundStatementSyntax>();
     stmt = block;
